@@ -90,6 +90,11 @@ chk("C19","E3-hist","model_checking",
   "Explicit-state history replay on fresh real RtpTransports. Demux: every registration set of <= 4 ops over {SSRC, RID, MID, PT lists, single PT, provisional} x 3 listeners (up to renaming) x receiver status x extension ids, crossed with all packet sequences (<= 2-3) plus canonical-state BFS, against a reference demultiplexer written from the statement. Bridge: 8 rule tables x all interleavings of two source streams over 8 step kinds (<= 5-8 packets) with output captured on the target's in-memory socket: stable SSRC/PT, consecutive sequence numbers, timestamp offsets constant between discontinuities.",
   "Trusted: the BFS merge key (registry bookkeeping model calibrated against the real transport at start-up, merge cross-checked); closed receivers' registrations are optional in the oracle (statement silent); SRTP paths and concurrency not covered.",
   "explicit-state search by history replay on real transports with a reference demultiplexer / continuity oracle","DESIGN.md 4.19")
+
+chk("C08","E4-enum","exploration",
+  "Complete enumeration of a grammar-generated offer space (1 section over a 678-letter alphabet x BUNDLE x setup x attribute level; all ordered pairs of sections over 54 / 438 letters; words of 3-6 sections over a reduced alphabet; second negotiations via 7 change operators) x 8 local configurations on real PeerConnections (quick 2.9e5 cases, thorough 9.7e6); oracle = the RFC 3264 / JSEP answer relation read from the SDP text by the harness's own parser (section count/order/kind/mid, formats, RTX apt, extmap ids, rtcp-mux, BUNDLE, direction table, setup role, format meaning) plus parse-print identity.",
+  "Grammar residue: one simulcast shape, no candidates / ssrc / msid lines; setup varied only for <= 2 sections. Round trip compared modulo the printer's documented attribute reordering.",
+  "exhaustive enumeration of a grammar-generated offer space on real PeerConnections with a text-level answer-relation oracle","DESIGN.md 4.8")
 todo = {p: "check under construction in this round (DESIGN.md section 8 build order); not yet claimed" for p in props if p not in C}
 m = {"version": 1,
  "setup_cmd": "cd /verif/harness && CARGO_NET_OFFLINE=true cargo build --release --offline --workspace",
@@ -101,7 +106,7 @@ m = {"version": 1,
   {"name":"E2-sim","path":"harness/vh/src/{sim,sctp_sim,sctp_props,dtls_sim,explorer,wire}.rs + bin/{c02,c03,c11}.rs","serves_properties":["C01","C02","C03","C07","C11","C12","C13"],"kind_free_text":"deterministic two-endpoint simulator (real IceConn/DTLS/SCTP on an in-memory socket, paused tokio clock, seeded RNG) under a deviation-bounded fault explorer"},
   {"name":"E5-loopback","path":"harness/vh/src/bin/{c06,c10}.rs","serves_properties":["C06","C10"],"kind_free_text":"finite lattices of configurations / credentials / crash points on real loopback sockets, thrice-confirmed"},
   {"name":"E3-hist","path":"harness/vh/src/bin/{c05,c09,c14,c18,c19}.rs","serves_properties":["C05","C09","C14","C18","C19"],"kind_free_text":"explicit-state search over operation histories replayed on fresh real objects"},
-  {"name":"E4-enum","path":"harness/vh/src/bin/{c04,c07,c15,c16}.rs + src/c07/","serves_properties":["C04","C07","C15","C16"],"kind_free_text":"complete enumeration of bounded input spaces against reference models / independent implementations"}],
+  {"name":"E4-enum","path":"harness/vh/src/bin/{c04,c07,c08,c15,c16}.rs + src/c07/","serves_properties":["C04","C07","C08","C15","C16"],"kind_free_text":"complete enumeration of bounded input spaces against reference models / independent implementations"}],
  "checks": [C[p] for p in props if p in C],
  "not_applicable": [{"property_id": p, "reason": r} for p, r in todo.items()],
  "notes": "See DESIGN.md. Exit codes: 0 held (KNOWN-FINDING lines allowed) / 1 VIOLATION / 2 machinery failure. Known and fixed findings: /verif/known_findings.json."}
